@@ -157,3 +157,52 @@ Proof.
   intros Hun Hd q r c E Hq Hat.
   destruct (down_ancestor_unique _ _ _ (dir_at_down _ _ _ Hd) Hun q r c E Hq Hat) as (F & D & _). auto.
 Qed.
+
+(* ---- the judge on a failed listing ---- *)
+Lemma sub_b_spec l1 : forall l2, sub_b l1 l2 = true <-> exists rest, Permutation (l1 ++ rest) l2.
+Proof.
+  induction l1 as [|x l1 IH]; intros l2; cbn [sub_b].
+  - split; [intros _; exists l2; apply Permutation_refl|reflexivity].
+  - destruct (remove1 x l2) as [l2'|] eqn:E.
+    + apply remove1_some in E. rewrite IH. split; intros (rest & H); exists rest.
+      * cbn [app]. eapply perm_trans; [apply perm_skip; exact H|apply Permutation_sym; exact E].
+      * eapply Permutation_cons_inv. cbn [app] in H. eapply perm_trans; [exact H|exact E].
+    + apply remove1_none in E. split; [discriminate|]. intros (rest & H). exfalso. apply E.
+      eapply Permutation_in; [exact H|left; reflexivity].
+Qed.
+
+Lemma ents_map_REntry l : ents (map REntry l) = l.
+Proof. induction l as [|e l IH]; [reflexivity|]. cbn [map ents flat_map app] in *. unfold ents in IH. rewrite IH. reflexivity. Qed.
+
+Lemma map_REntry_ents l : map REntry (ents l) = entries_of l.
+Proof.
+  unfold entries_of. induction l as [|[e|] l IH]; [reflexivity| |].
+  - cbn [ents flat_map app map filter is_entry is_err negb]. unfold ents in IH. rewrite IH. reflexivity.
+  - cbn [ents flat_map app filter is_entry is_err negb]. exact IH.
+Qed.
+
+Lemma ents_walk_all t : ents (walk_all [] t) = walk_spec [] t.
+Proof.
+  pose proof (map_REntry_ents (walk_all [] t)) as H. rewrite <- walk_spec_entries in H.
+  clear - H. revert H. generalize (ents (walk_all [] t)) (walk_spec [] t).
+  induction l as [|a l IH]; intros [|b l0]; cbn [map]; intros H; try discriminate; [reflexivity|].
+  injection H as -> H. f_equal. auto.
+Qed.
+
+(* Also a listing that ended in an error is accepted by the judge: what the consumer had received is
+   a parents-first part of the reference walk, and the tree does have an error. *)
+Lemma model_failed_listing_admitted N C : N >= 1 -> forall root s,
+  reach N C root s -> cons s = CErr \/ cons s = CDropped -> admits root false (recvd s) = true.
+Proof.
+  intros HN root s Hr Hc. unfold admits. rewrite !andb_true_iff. repeat split.
+  - destruct (has_error root) eqn:He; [reflexivity|].
+    destruct (noerror_never_fails N C HN _ _ Hr He) as [H|H]; destruct Hc; congruence.
+  - apply sub_b_spec. destruct (I_R _ _ _ (reach_inv _ _ _ _ Hr)) as (rest & HR).
+    exists (ents rest).
+    assert (HP : Permutation (map REntry (recvd s) ++ rest) (walk_all [] root)).
+    { apply occ_perm. intros x. rewrite occ_app. apply HR. }
+    apply (Permutation_flat_map (fun r => match r with REntry e => [e] | RErr => [] end)) in HP.
+    change (Permutation (ents (map REntry (recvd s) ++ rest)) (ents (walk_all [] root))) in HP.
+    rewrite ents_app, ents_map_REntry, ents_walk_all in HP. exact HP.
+  - apply parent_first_b_spec. apply ancestors_parent_first. eapply reach_parent_first; eauto.
+Qed.
